@@ -85,9 +85,23 @@ def main():
         for i in range(first, first + count):
             rng = random.Random(seed * 104729 + i)
             ia, ib = rng.randrange(6, 400), rng.randrange(0, 400)
+            def grow(m):
+                # one more claim with its proof (through the module's own imported lemma library)
+                from pi2v import repo as _r
+                Pm = _r.P()
+                subs_ = [x for x in getattr(m, '_submodules', []) if hasattr(x, 'imp_refl')]
+                if not subs_:
+                    return False
+                th = subs_[0].imp_refl(Pm.App(Pm.Symbol('zzgrown'), Pm.Symbol('a')))
+                m.add_claim(th.conc)
+                m.add_proof_expression(th)
+                return True
             if mode == 'hist_alone':
                 _, A = module_for(seed, ia)
                 out[f'{i}:A={ia},B={ib}'] = {'A': ser_all(A, scratch, 'm')}
+                _, Ag = module_for(seed, ia)
+                if grow(Ag):
+                    out[f'{i}:A={ia},B={ib}']['A+'] = ser_all(Ag, scratch, 'm')
             else:
                 _, B = module_for(seed, ib, alt_syms=True)
                 ser_all(B, scratch, 'm')
@@ -101,6 +115,12 @@ def main():
                 res = {'B,A': ser_all(A, scratch, 'm'), 'A,A': ser_all(A, scratch, 'm')}
                 ser_all(B, scratch, 'm')
                 res['A,B,A'] = ser_all(A, scratch, 'm')
+                # the same module object serialised, then extended by one claim, then serialised again: the second output must be
+                # that of a fresh module in the extended state
+                _, Ag = module_for(seed, ia)
+                ser_all(Ag, scratch, 'm')
+                if grow(Ag):
+                    res['A,A+'] = ser_all(Ag, scratch, 'm')
                 out[f'{i}:A={ia},B={ib}'] = res
     elif mode == 'histories':
         seed, first, count, scratch = int(sys.argv[2]), int(sys.argv[3]), int(sys.argv[4]), Path(sys.argv[5])
